@@ -1,7 +1,7 @@
 import Qryn.Sql.SemG
 /-! List lemmas for the grouped SQL semantics: `dedup`, `sortBy`, prefixes of sorted lists. Core only. -/
-namespace Qryn
-open Qryn.Sql
+namespace Qryn.ListAux
+open Qryn Qryn.Sql
 
 theorem mem_dedup {α} [BEq α] [LawfulBEq α] (a : α) (l : List α) : a ∈ dedup l ↔ a ∈ l := by
   induction l with
@@ -88,4 +88,10 @@ theorem take_le_drop {α} (le : α → α → Bool) (l : List α) (hs : l.Pairwi
   rw [← this] at hs
   exact (List.pairwise_append.mp hs).2.2 a ha b hb
 
+end Qryn.ListAux
+
+/- `insertBy_perm`, `sortBy_perm`, `mem_sortBy`, `take_le_drop` have namesakes in `Qryn.Proofs.Sort` (C07); they stay
+   under `Qryn.ListAux` so that a module may import both proof chains (C13 does). -/
+namespace Qryn
+export ListAux (mem_dedup nodup_dedup insertBy_sorted sortBy_sorted)
 end Qryn
